@@ -249,6 +249,11 @@ func runPoolAbort(args []*Sexp) *Sexp {
 	if err != nil || pan != nil {
 		return L(A("compile-error"), A(sanitize(fmt.Sprint(err, pan))))
 	}
+	src3 := "global hook\nstrings := import(\"strings\")\nout := strings.Map(func(c) { hook(1); return c + 1 }, \"abc\")\nhook(-1)\nreturn out\n"
+	bc3, err, pan := compileSrc([]byte(src3), ugo.CompilerOptions{ModuleMap: moduleMapAll(nil)})
+	if err != nil || pan != nil {
+		return L(A("compile-error"), A(sanitize(fmt.Sprint(err, pan))))
+	}
 	noop := &ugo.Function{Name: "hook", Value: func(args ...ugo.Object) (ugo.Object, error) { return ugo.Undefined, nil }}
 	run := func(vm *ugo.VM, hook ugo.Object) string {
 		v, err := vm.Run(ugo.Map{"hook": hook})
@@ -270,6 +275,31 @@ func runPoolAbort(args []*Sexp) *Sexp {
 			return L(A("diff"), A(fmt.Sprint(r)), hexAtom([]byte(got)), hexAtom([]byte(solo)))
 		}
 		runs++
+		// VM A2 has completed a pooled callback (its child went back to the pool) and then calls a Go function
+		// from its main script; that function runs VM B on the same goroutine - B's callback takes the child A2
+		// gave back - and, from inside B's callback, the host aborts A2: B is not aborted
+		{
+			a3 := ugo.NewVM(bc3)
+			var gotB string
+			hookA := &ugo.Function{Name: "hook", Value: func(args ...ugo.Object) (ugo.Object, error) {
+				if n, _ := ugo.ToGoInt64(args[0]); n != -1 {
+					return ugo.Undefined, nil
+				}
+				hookB := &ugo.Function{Name: "hook", Value: func(args ...ugo.Object) (ugo.Object, error) {
+					if n, _ := ugo.ToGoInt64(args[0]); n == at {
+						a3.Abort()
+					}
+					return ugo.Undefined, nil
+				}}
+				gotB = run(ugo.NewVM(bc), hookB)
+				return ugo.Undefined, nil
+			}}
+			_ = run(a3, hookA)
+			if gotB != solo {
+				return L(A("diff"), A(fmt.Sprint(r)), hexAtom([]byte(gotB)), hexAtom([]byte(solo)))
+			}
+			runs++
+		}
 		var wg sync.WaitGroup
 		var mu sync.Mutex
 		bad := ""
